@@ -73,6 +73,11 @@ class PoolExec(Exec):
                 and ast.unparse(stmts[0].value.func) == 'pool__connect' and self.fail is not None:
             env2 = dict(env); env2['pool_con'] = Sym('(Some fresh)', 'option conn')
             return '(if connect_ok\n then %s\n else %s)' % (Exec.run(self, stmts[1:], env2, k), self.fail(self, env))
+        # calls that may raise inside an assignment (OraPool: creating the SessionPool, acquiring a connection): one oracle each
+        if stmts and isinstance(stmts[0], ast.Assign) and isinstance(stmts[0].value, ast.Call) and self.fail is not None \
+                and ast.unparse(stmts[0].value.func) in getattr(self.spec, 'may_raise', {}):
+            oracle = self.spec.may_raise[ast.unparse(stmts[0].value.func)]
+            return '(if %s\n then %s\n else %s)' % (oracle, Exec.run(self, stmts, env, k), self.fail(self, env))
         return Exec.run(self, stmts, env, k)
     def field(self, env, name, ty):
         v = env[name]
@@ -117,17 +122,21 @@ def translate_ora_connect():
     def ret(ex, s, env):
         v = ex.eval(s.value, env)
         if not (isinstance(v, Tuple) and len(v.items) == 2): raise TranslateError('OraPool.connect: return value is not (con, is_new)')
-        return '(%s, %s, %s, %s, %s)' % (ex.emit(v.items[0]), ex.emit(env['pool_cx_pool']), ex.emit(env['pool_pid']),
-                                        ex.emit(env['pool_forked_pools']), ex.emit(v.items[1]))
+        return '(Some %s, %s, %s, %s, %s)' % (ex.emit(v.items[0]), ex.emit(env['pool_cx_pool']), ex.emit(env['pool_pid']),
+                                             ex.emit(env['pool_forked_pools']), ex.emit(v.items[1]))
+    def fail(ex, env):
+        return '(None, %s, %s, %s, false)' % (ex.emit(env['pool_cx_pool']), ex.emit(env['pool_pid']), ex.emit(env['pool_forked_pools']))
     spec = PoolSpec(fields, {'cx_Oracle.SessionPool': ('fresh_pool', 'cxpool')})
-    ex = PoolExec(spec, ret)
+    spec.may_raise = {'cx_Oracle.SessionPool': 'pool_ok', 'pool_cx_pool.acquire': 'acquire_ok'}
+    ex = PoolExec(spec, ret, fail)
     env = {selfn: Sym('<self>', 'self'), 'pool_cx_pool': Sym('pool_cx_pool', 'cxpool'), 'pool_pid': Sym('pool_pid', 'Z'),
            'pool_forked_pools': Sym('pool_forked_pools', 'list (cxpool * Z)'), 'pool_kwargs': Sym('<kwargs>', 'kwargs'),
            'core': Sym('<module>', 'module'), 'output_type_handler': Const(0)}
     body = ex.run(fdef.body, env, lambda e: ex.spec.fallthrough(ex, e))
-    return ('(* pony/orm/dbproviders/oracle.py:%d OraPool.connect; result = (connection, pool.cx_pool, pool.pid, forked_pools, is_new) *)\n'
-            'Definition ora_connect (pid : Z) (pool_cx_pool : cxpool) (pool_pid : Z) (pool_forked_pools : list (cxpool * Z)) (fresh_pool : cxpool)\n'
-            '  : conn * cxpool * Z * list (cxpool * Z) * bool :=\n%s.\n' % (line, body))
+    return ('(* pony/orm/dbproviders/oracle.py:%d OraPool.connect; result = (connection or None if it raised, pool.cx_pool, pool.pid, forked_pools, is_new);\n'
+            '   pool_ok / acquire_ok: does cx_Oracle.SessionPool(...) / cx_pool.acquire() succeed (otherwise it raises and the call ends there) *)\n'
+            'Definition ora_connect (pool_ok acquire_ok : bool) (pid : Z) (pool_cx_pool : cxpool) (pool_pid : Z) (pool_forked_pools : list (cxpool * Z)) (fresh_pool : cxpool)\n'
+            '  : option conn * cxpool * Z * list (cxpool * Z) * bool :=\n%s.\n' % (line, body))
 
 
 def _body(fdef):
